@@ -157,6 +157,10 @@ func ValidCount(n int) bool {
 // Dec is R-DEC: tokens → entropy. Unknown is the position of the first token
 // that is not a list word (when Status is UnknownWord).
 func (m *Model) Dec(tokens []string, lang int) (ent []byte, st Status, unknown int) {
+	if lang < 0 || lang >= NLang {
+		// no list: nothing is a word of it
+		return nil, UnknownWord, 0
+	}
 	if !ValidCount(len(tokens)) {
 		return nil, BadCount, -1
 	}
